@@ -102,7 +102,8 @@ def run_detect(case):
             {"name": "SMP", "n": 40, "chain": [4], "seq": 1}]}]}]}))[0]
         n = len(case["modes"])
         step = 3 if n <= 3 else 1
-        with open(os.path.join(d, "disc.bin"), "wb") as f:
+        binname = case.get("bin_name", "disc.bin")
+        with open(os.path.join(d, binname), "wb") as f:
             f.write(akai if case["data"] else Q.bin_bytes(Q.SECTOR * max(10, n * step + 2)))
         tracks = []
         for i, mode in enumerate(case["modes"]):
@@ -115,7 +116,7 @@ def run_detect(case):
         with open(p, "w") as f:
             # long sheets: REM lines before the FILE line (legal anywhere, ignored)
             f.write("".join("REM comment line %04d %s\n" % (k, "x" * 40) for k in range(case.get("preamble", 0))))
-            f.write(Q.cue_text("disc.bin", tracks))
+            f.write(Q.cue_text(binname, tracks))
             for j in range(case.get("more_files", 0)):
                 # one bin per track, the way mixed-mode discs are usually dumped: the data track lives in the first FILE
                 f.write('FILE "audio%02d.bin" BINARY\n  TRACK %02d AUDIO\n    INDEX 00 00:00:00\n    INDEX 01 00:02:00\n' % (j + 2, len(tracks) + j + 1))
@@ -123,7 +124,7 @@ def run_detect(case):
             img = tree.open_image(p)
             return type(img).__name__, tree.ls(img, "")
         st, obs = guarded(go, 30.0)
-        st_b, base = guarded(lambda: tree.ls(tree.open_image(os.path.join(d, "disc.bin")), ""), 30.0)
+        st_b, base = guarded(lambda: tree.ls(tree.open_image(os.path.join(d, binname)), ""), 30.0)
     want = "CompactDiskAudioImage" if all(m.upper() == "AUDIO" for m in case["modes"]) else "AkaiImageParser"
     if st != "ok":
         return False, "detect-" + ("raised:" + exc_sig(obs) if st == "exc" else "hang"), {"observed": repr(obs)[:200]}
@@ -151,7 +152,7 @@ class Check(CheckBase):
             "through the printed names, identical exported trees (paths + bytes); cue dispatch: all combinations of "
             "AUDIO/MODE1/2352/MODE2/2352 modes over <=3 tracks; long sheets: n titled audio tracks (+ a data track last) for "
             "every n<=98, k comment lines before FILE for every k<300 (thorough <1200) and 5000, 20000; an all-audio sheet "
-            "lists exactly its tracks; sheets with 1, 2, 5 further FILE entries (one bin per track) after the data track's; the sheet named DISC.CUE / Disc.Cue / disc.CUE / with a blank / with two dots. non-trivial = image with >=1 exported file")
+            "lists exactly its tracks; 8 bin file names with blanks / several dots / upper case / no suffix; sheets with 1, 2, 5 further FILE entries (one bin per track) after the data track's; the sheet named DISC.CUE / Disc.Cue / disc.CUE / with a blank / with two dots. non-trivial = image with >=1 exported file")
     assumptions = ["MODE1/2352 and MDX writers follow the layouts in DESIGN appendix A"]
 
     def shards(self):
@@ -193,6 +194,10 @@ class Check(CheckBase):
         for first in (["MODE1/2352"], ["MODE2/2352"], ["mode1/2048"]):
             for more in (1, 2, 5):
                 det.append({"fmt": "detect", "modes": first, "data": True, "more_files": more})
+        # the bin's file name as a user may have chosen it (blanks, several dots, upper case, quotes' neighbours)
+        for bn in ("my disc.bin", " disc .bin", "disc.v2.bin", "DISC.BIN", "disc", "a b  c.img", "d'isc.bin", "disc(1).bin"):
+            for t in (["MODE1/2352"], ["AUDIO"], ["AUDIO", "MODE1/2352"], ["AUDIO", "AUDIO"]):
+                det.append({"fmt": "detect", "modes": t, "data": not all(m.upper() == "AUDIO" for m in t), "bin_name": bn})
         # the sheet's own file name written the way other systems write it
         for nm in ("DISC.CUE", "Disc.Cue", "disc.CUE", "my disc.cue", "disc.v2.cue"):
             for k in (1, 2):
